@@ -209,4 +209,47 @@ def runCase (sub : Subject σ Op) (init : σ) (programs : List (List Op)) (choic
   let (s2, log2) := drain sub s1 200 log1
   " ; ".intercalate (log2 ++ [s!"final blocked=[{blockedStr sub s2}] {sub.final s2.subj}"])
 
+/-! ### Drain for subjects whose waiters signal before they park (pubsub.Deque, D28)
+
+    `element.wait` / `waitPushAfter` call `cond.Signal()` before every `cond.Wait()`, so two
+    goroutines parked on the same condition wake each other for ever and `drain` (which prefers
+    resumes to helper fires) would spin until its fuel is gone. `drainPP` prefers starts, then helper
+    fires, then the resume of a woken thread that has not yet been seen to park again since the
+    last segment that returned (`checked`); it stops when nothing but such re-parking resumes is
+    left ("quiescent up to ping-pong"). Mirrored by `sched.runPP` in harness/sched.go. -/
+
+def Act.isStart : Act → Bool | .start _ => true | _ => false
+def Act.isFire : Act → Bool | .fire _ => true | _ => false
+
+def pickPP (en : List Act) (checked : List Nat) : Option Act :=
+  match en.find? Act.isStart with
+  | some a => some a
+  | none =>
+    match en.find? Act.isFire with
+    | some a => some a
+    | none => en.find? (fun a => match a with | .resume t => !checked.contains t | _ => false)
+
+def drainPP (sub : Subject σ Op) (s : Sys σ Op) (fuel : Nat) (checked : List Nat) (log : List String) : Sys σ Op × List String :=
+  match fuel with
+  | 0 => (s, log)
+  | fuel + 1 =>
+    let en := enabled s false
+    match pickPP en checked with
+    | none => (s, log)
+    | some a =>
+      match step sub s a with
+      | none => (s, log ++ ["model-stuck"])
+      | some (s', obs) =>
+        let checked' := match a with
+          | .resume t => if obs.startsWith "park:" then t :: checked else []
+          | .start _ => []
+          | _ => checked
+        drainPP sub s' fuel checked' (log ++ [s!"{enStr en}{a.label}={obs}"])
+
+def runCasePP (sub : Subject σ Op) (init : σ) (programs : List (List Op)) (choices : List Nat) : String :=
+  let s0 : Sys σ Op := { subj := init, ths := programs.map (fun p => { ops := p, st := if p.isEmpty then .done else .idle }) }
+  let (s1, log1) := runChoices sub s0 choices []
+  let (s2, log2) := drainPP sub s1 400 [] log1
+  " ; ".intercalate (log2 ++ [s!"final blocked=[{blockedStr sub s2}] {sub.final s2.subj}"])
+
 end FunModel.Conc
